@@ -973,11 +973,11 @@ func (db *BadgerDB) DeleteRange(ctx storage.Context, kStart, kEnd storage.TKey) 
 	numKV := 0
 	for {
 		result := <-ch
-		if result.KeyValue == nil {
-			break
-		}
 		if result.error != nil {
 			return result.error
+		}
+		if result.KeyValue == nil {
+			break
 		}
 
 		// The key coming down channel is not index but full key, so no need to construct key
